@@ -150,6 +150,8 @@ class Materializer:
             wire = bytes(enc.make_interest(name, ip, ap, signer=_signer(sig, for_interest=True)))
             if spec.get('no_sigvalue') and sig:
                 wire = self._drop_sigvalue(wire)
+            if spec.get('no_digest_comp'):
+                wire = self._drop_digest_comp(wire)
             if spec.get('bad_digest'):
                 wire = self._break_digest(wire)
             if spec.get('digest_from') is not None:
@@ -166,6 +168,19 @@ class Materializer:
             base = self.outer_of(spec['base'])
             return apply_mutation(base, spec['m'])
         raise HarnessError(f'unknown packet kind {k}')
+
+    @staticmethod
+    def _drop_digest_comp(wire):
+        """a parameterised Interest whose name lacks the ParametersSha256DigestComponent altogether"""
+        p = tlvref.parse_interest(wire)
+        if p.params_digest is None:
+            return wire
+        _typ, vs, ve = tlvref.single(wire)
+        els = tlvref.elements(wire, vs, ve)
+        nm = tlvref.find(els, tlvref.T_NAME)
+        comps = [c for c in tlvref.name_components(wire, nm[2], nm[3]) if c[0] != tlvref.T_PARAMS_DIGEST]
+        body = tlvref.name_tlv(comps) + b''.join(wire[s_:e_] for (t_, s_, _v, e_) in els if t_ != tlvref.T_NAME)
+        return tlvref.tlv(0x05, body)
 
     @staticmethod
     def _drop_sigvalue(wire):
@@ -889,6 +904,12 @@ class PipeWorld(World):
                 self.peer.eof()
         elif self.face_kind == 'udp':
             self.peer.error(ConnectionRefusedError('simulated ICMP unreachable'))
+        elif op.get('crash'):
+            # the transport's run() ends with an exception of its own (a driver error, a bug in a third-party face)
+            exc = RuntimeError('simulated transport failure')
+            self.reported_excs.append(exc)      # main_loop may pass it on: that is the harness's doing
+            self.stats['fault.face_run_raises'] += 1
+            self.face.crash(exc)
         else:
             self.face.peer_close()
 
